@@ -177,8 +177,10 @@ func c05Final(e *driver.Env) {
 		e.Failf("C05.d", "Void did not consume every element", "Void: %d of %d elements consumed", s.Prods[0].Sent-len(s.InCh[0]), len(p.Inputs[0]))
 		return
 	}
-	// C05.b: outputs closed, goroutines gone
-	if alive := e.LibTasksAlive(nil); len(alive) > 0 {
+	// C05.b: outputs closed; goroutines gone once the inputs are closed too (a
+	// stage that is done with an input that stays open — Take, TakeWhile — owes
+	// the closed output, not its own exit: C06 ties the exit to closed inputs)
+	if alive := e.LibTasksAlive(nil); len(alive) > 0 && s.InputsClosed() {
 		e.Failf("C05.b", "library goroutine still alive after the stage finished",
 			"%s: %s", p.Stage, driver.DescribeTasks(alive))
 		return
